@@ -479,7 +479,7 @@ class Exec:
         if isinstance(x, H):
             return self.canon(st, ref)
         if st.rec and ref.path and ref.path[-1][0] == "f" and ref.root not in st.rec[-1].fresh:
-            st.rec[-1].reads.append((self.canon(st, ref), None, t_and(*st.pc[st.rec[-1].pc_len:])))
+            st.rec[-1].reads.append((self.canon(st, ref), None, tuple(st.pc[st.rec[-1].pc_len:])))
         return self.force(st, x)
 
     def force(self, st, v):
@@ -565,7 +565,7 @@ class Exec:
         """What is put into a slot: scalar V, VRef (by reference) or H copy (by value)."""
         if isinstance(new, VRef):
             if by_value:
-                h = self.resolve(st, new)
+                h = self.deep_inline(st, self.resolve(st, new))
                 if new.root not in st.fresh_roots or new.path:
                     st.aliases.append((new.root, new.path))
                 else:
@@ -574,6 +574,31 @@ class Exec:
                 return h
             return new
         return new
+
+    def deep_inline(self, st, h, depth=0):
+        """By-value form of an object graph (references to nested containers are inlined); the copy
+        is recorded as an alias hazard by the caller."""
+        if depth > 6:
+            raise Unsupported("object graph too deep to store by value")
+        if isinstance(h, HObj):
+            fs = {}
+            for k, v in h.fields.items():
+                if isinstance(v, VRef):
+                    st.aliases.append((v.root, v.path))
+                    v = self.deep_inline(st, self.resolve(st, v), depth + 1)
+                elif isinstance(v, H):
+                    v = self.deep_inline(st, v, depth + 1)
+                fs[k] = v
+            return HObj(h.cls, fs, h.lazy)
+        if isinstance(h, HList) and any(isinstance(i, VRef) for i in h.items):
+            items = []
+            for i in h.items:
+                if isinstance(i, VRef):
+                    st.aliases.append((i.root, i.path))
+                    i = self.deep_inline(st, self.resolve(st, i), depth + 1)
+                items.append(i)
+            return HList(items)
+        return h
 
     def upd(self, st, cur, path, new):
         if not path:
@@ -723,11 +748,16 @@ class Exec:
             return HListC(t_ite(c, a.length, b.length), a.binder, self.v_ite(c, a.elem, be), a.elem_ty)
         if isinstance(a, HPySet) and isinstance(b, HPySet) and not a.items and not b.items:
             return a
+        if isinstance(a, HPySet) and isinstance(b, HSet):
+            mem = t_or(*[b.binder == self.lower(i, b.kty) for i in a.items])
+            return HSet(b.kty, b.binder, t_ite(c, mem, b.mem))
+        if isinstance(b, HPySet) and isinstance(a, HSet):
+            mem = t_or(*[a.binder == self.lower(i, a.kty) for i in b.items])
+            return HSet(a.kty, a.binder, t_ite(c, a.mem, mem))
         if isinstance(a, HObj) and isinstance(b, HObj) and a.cls == b.cls:
             names = set(a.fields) | set(b.fields)
-            if a.lazy is None or b.lazy is None:
-                if set(a.fields) != set(b.fields):
-                    raise NeedSplit(c)
+            if (a.lazy is None and set(b.fields) - set(a.fields)) or (b.lazy is None and set(a.fields) - set(b.fields)):
+                raise NeedSplit(c)
             fs = {}
             for n in names:
                 fa = a.fields[n] if n in a.fields else self.mk_abstract(self.schema.field_ty(a.cls, n), f"{a.lazy[0]}.{n}", a.lazy[1])
